@@ -285,6 +285,11 @@ type FaultClient struct {
 	Fired string
 	// OnAck is called after the service acknowledged an upload for name.
 	OnAck func(name string, hwm ltx.TXID)
+	// OnPosMap is called after a position map was fetched, OnFault when an injected fault fires,
+	// OnFetch before a snapshot is fetched for name (the primary is about to adopt the service's state).
+	OnPosMap func()
+	OnFault  func(kind string)
+	OnFetch  func(name string)
 	Calls []string
 	// View approximates what the store's sync loop believes the service holds
 	// (its cached position map): the last PosMap answer, updated by each
@@ -319,6 +324,9 @@ func (c *FaultClient) take(kind string) bool {
 	if c.Arm == kind {
 		c.Arm = ""
 		c.Fired = kind
+		if c.OnFault != nil {
+			c.OnFault(kind)
+		}
 		return true
 	}
 	return false
@@ -334,6 +342,9 @@ func (c *FaultClient) PosMap(ctx context.Context) (map[string]ltx.Pos, error) {
 		c.View = map[string]string{}
 		for k, v := range m {
 			c.setView(k, v.String())
+		}
+		if c.OnPosMap != nil {
+			c.OnPosMap()
 		}
 	}
 	return m, err
@@ -393,6 +404,9 @@ func (c *cutReadCloser) Close() error { return c.c.Close() }
 
 func (c *FaultClient) FetchSnapshot(ctx context.Context, name string) (io.ReadCloser, error) {
 	c.Calls = append(c.Calls, "FetchSnapshot "+name)
+	if c.OnFetch != nil {
+		c.OnFetch(name)
+	}
 	if c.take("fs") {
 		return nil, fmt.Errorf("injected: snapshot unavailable")
 	}
